@@ -54,7 +54,7 @@ def run(ctx):
     ctx.replay(rep, cases, label="R/JsonTextVar", args=("--tmpdir", ctx.tmp), timeout=ctx.pick(600, 3000))
     os.unlink(cases)
     # V: random trees through the real encoder/decoder, judged by TLC
-    files = ctx.record(rec, ctx.pick(8, 24), ctx.pick(260, 1200), "V/JsonTextEnc")
+    files = ctx.record(rec, ctx.pick(8, 24), ctx.pick(450, 1200), "V/JsonTextEnc")
     ctx.validate_traces("Trace_JsonTextEnc", "Trace_JsonTextEnc", files, label="V/JsonTextEnc", timeout=ctx.pick(600, 3000),
                         xss="512m", xmx="4g")
     if not ctx.quick:
